@@ -32,13 +32,14 @@ class Ctx:
         self.workdir = workdir
         self.proof_ok = proof_ok
         self.scale = 1          # multiplied in the directed search
+        self.boost = 1          # multiplied when the anchored source differs from the validated baseline (srcwatch.py)
         self.impl_only = False  # directed search: run the implementation + oracle only
 
     def rng(self, salt=''):
         return common.mkrng(self.seed, '%s/%s' % (self.pid, salt))
 
     def n(self, quick, thorough):
-        return (thorough if self.tier == 'thorough' else quick) * self.scale
+        return (thorough if self.tier == 'thorough' else quick) * self.scale * self.boost
 
 
 class Result:
@@ -96,6 +97,15 @@ def main(argv=None):
                 proof_problem = proof_problem or ('coqchk does not accept Properties/%s.v and its dependencies without axioms: %r %s'
                                                   % (pid, chk['summary'], chk['log']))
         ctx = Ctx(pid, a.tier, a.seed, wd, proof_ok)
+        src_changed = []
+        try:
+            import srcwatch
+            src_changed = srcwatch.changed_for(pid)
+        except Exception:
+            log(traceback.format_exc())
+        if src_changed and a.tier == 'quick' and not a.replay:
+            ctx.boost = int(os.environ.get('VERIF_BOOST', '4'))
+            log('anchored source changed since the model was validated (%s): case counts x%d' % (', '.join(src_changed), ctx.boost))
         if a.replay:
             return replay(mod, ctx, a.replay)
 
@@ -203,7 +213,8 @@ def main(argv=None):
             disagreements=len(res.disagreements),
             distribution=res.dist,
             known_findings_hit=sorted(known_hit),
-            notes=res.notes,
+            notes=res.notes + (['anchored source differs from harness/src_baseline.json (%s): case counts multiplied by %d'
+                                % (', '.join(src_changed), ctx.boost)] if src_changed else []),
         )
         if chk is not None:
             cov['coqchk'] = dict(cmd=chk['cmd'], accepted=chk['ok'], wall_s=chk['wall_s'], context_summary=chk['summary'])
